@@ -131,7 +131,9 @@ def unpackVars (little : Bool) : List Layout → Bytes → Except Err (List Deco
       let vals := (items d.itemsize d.count raw).map (decodeItem little)
       let ck := (buf.drop nbytes).take 4                    -- buffer[stop:stop+4]
       if ck.length = 4 then
-        (unpackVars little ds (buf.drop (nbytes + 4))).map (⟨vals, some (decodeItem little ck)⟩ :: ·)
+        -- `numpy.frombuffer(ck, endian + "u4").byteswap("=")`: the argument is `inplace` (truthy), so the
+        -- word is byte-swapped: the attribute holds the checksum read in the *other* byte order
+        (unpackVars little ds (buf.drop (nbytes + 4))).map (⟨vals, some (decodeItem (!little) ck)⟩ :: ·)
       else if ck.length = 0 then
         (unpackVars little ds (buf.drop (nbytes + 4))).map (⟨vals, none⟩ :: ·)
       else .error .valueError
